@@ -222,7 +222,7 @@ def evaluate(ctx, deep):
     for n in range(1, nmax + 1):
         for m in range(0, n + 1):
             if deep:
-                reps = {1: 3, 2: 5, 3: 4, 4: 3, 5: 1}[n]
+                reps = {1: 4, 2: 8, 3: 8, 4: 6, 5: 2}[n]
             else:
                 reps = {1: 2, 2: 3, 3: 3, 4: 1, 5: 1}[n]
             if n == 5 and not deep:
